@@ -63,6 +63,8 @@ pub fn take_global() -> Vec<Value> {
 
 /// Record a dictionary-level event with a global sequence number (taken under the sink lock).
 pub fn emit_global(what: &str, detail: Value) {
+    // also visible, in program order, to a recorder installed on the calling thread
+    emit(|| json!({"ev": what, "detail": detail.clone()}));
     let mut g = GSINK.lock().unwrap();
     if let Some(sink) = g.as_mut() {
         let seq = GSEQ.fetch_add(1, Ordering::SeqCst);
